@@ -191,6 +191,10 @@ Holds(e) ==
     [] e.op = "SRandom"       -> Abs!SRandom(e.r, e.data, e.panic)
     \* accessor: set a scalar from a canonical integer (setup only)
     [] e.op = "SSetInt"       -> BytesLtN(e.v) /\ S'[e.r] = OS2IPW(e.v) /\ Abs!OnlyS(e.r)
+    \* concurrency harness: shared, read-only values were placed in pool slots (any valid values)
+    [] e.op = "Adopt"         -> TRUE
+    \* a data race reported by the Go race detector while the histories of this run executed
+    [] e.op = "RaceReport"    -> FALSE
     \* package constants
     [] e.op = "Order"         -> e.ret = Bytes32(N_m) /\ Abs!NoChange
     [] e.op = "Lengths"       -> e.scalar = 32 /\ e.element = 33 /\ Abs!NoChange
@@ -209,8 +213,8 @@ ElemOps == {"ENew", "EIdentity", "EBase", "ESet", "ECopy", "EAdd", "ESub", "EDou
 ScalOps == {"SNew", "SZero", "SOne", "SMinusOne", "SSetU64", "SSet", "SSetNil", "SCopy", "SAdd", "SSub", "SMul", "SMulNil",
             "SSquare", "SInvert", "SPow", "SPowNil", "SCSelect", "SDecode", "SUnmarshal", "SDecodeHex",
             "SHashToScalar", "SRandom", "SSetInt"}
-RecvE(e) == IF e.op \in ElemOps THEN {e.r} ELSE {}
-RecvS(e) == IF e.op \in ScalOps THEN {e.r} ELSE {}
+RecvE(e) == IF e.op \in ElemOps THEN {e.r} ELSE IF e.op = "Adopt" THEN 1..NEv ELSE {}
+RecvS(e) == IF e.op \in ScalOps THEN {e.r} ELSE IF e.op = "Adopt" THEN 1..NSv ELSE {}
 
 -----------------------------------------------------------------------------
 TraceInit ==
@@ -266,6 +270,7 @@ TraceNext ==
   /\ l <= Len(Trace)
   /\ l' = l + 1
   /\ IF Ev.op = "Reset" THEN ResetStep
+     ELSE IF Ev.op = "Adopt" THEN RunStep              \* a new history whose initial values are given
      ELSE IF mode = "skip" THEN SkipStep
      ELSE RunStep
 
